@@ -4,6 +4,7 @@ import (
 	"fmt"
 	"go/token"
 	"go/types"
+	"strings"
 
 	"golang.org/x/tools/go/ssa"
 )
@@ -628,4 +629,383 @@ func lenRecv(v ssa.Value) ssa.Value {
 		return recv
 	}
 	return nil
+}
+
+// ---------------------------------------------------------------------------------------
+// HORDER and CALLSEQ (C20): the call protocol of a Go extension.
+//
+// HORDER: the EvalContextHandler hook is consulted (and the context item prepended) before the
+// UndefinedHandler hook sees the arguments — the built-ins' undefined handlers look at the
+// argument list the function will actually receive. The roles of goCallable's handler fields
+// are read off newGoCallable (which Extension field each is initialised from), not off their
+// names.
+// CALLSEQ: the function value is only ever invoked with the argument list that came out of
+// validateArgTypes, which got the one that came out of validateArgCount, each after its error
+// was tested nil: no path calls the Go function with unchecked or unconverted arguments.
+// ---------------------------------------------------------------------------------------
+
+func runHORDER(c *Ctx, r *Result, rule string) int {
+	pkg := c.W.LibSSA["jsonata"]
+	if pkg == nil {
+		r.LoseAnchor("HORDER: package jsonata not loaded")
+		return 0
+	}
+	var gcT types.Type
+	if tn, ok := pkg.Pkg.Scope().Lookup("goCallable").(*types.TypeName); ok {
+		gcT = tn.Type()
+	}
+	if gcT == nil {
+		r.LoseAnchor("HORDER: type goCallable not found")
+		return 0
+	}
+	isGC := func(t types.Type) bool {
+		p, ok := t.Underlying().(*types.Pointer)
+		return ok && types.Identical(p.Elem(), gcT)
+	}
+	// which Extension field does v read?
+	extField := func(v ssa.Value) string {
+		switch x := v.(type) {
+		case *ssa.Field:
+			if isNamed(x.X.Type(), "jsonata-go", "Extension") || strings.HasSuffix(x.X.Type().String(), ".Extension") {
+				return x.X.Type().Underlying().(*types.Struct).Field(x.Field).Name()
+			}
+		case *ssa.UnOp:
+			if fa, ok := x.X.(*ssa.FieldAddr); ok && x.Op == token.MUL {
+				if p, ok := fa.X.Type().Underlying().(*types.Pointer); ok && strings.HasSuffix(p.Elem().String(), ".Extension") {
+					return p.Elem().Underlying().(*types.Struct).Field(fa.Field).Name()
+				}
+			}
+		}
+		return ""
+	}
+	role := map[int]string{} // goCallable field index -> "context" | "undefined"
+	for _, f := range c.G.Funcs {
+		if f.Pkg != pkg {
+			continue
+		}
+		for _, ins := range instrsIn(f) {
+			st, ok := ins.(*ssa.Store)
+			if !ok {
+				continue
+			}
+			fa, ok := st.Addr.(*ssa.FieldAddr)
+			if !ok || !isGC(fa.X.Type()) {
+				continue
+			}
+			switch extField(st.Val) {
+			case "EvalContextHandler":
+				role[fa.Field] = "context"
+			case "UndefinedHandler":
+				role[fa.Field] = "undefined"
+			}
+		}
+	}
+	if len(role) != 2 {
+		r.LoseAnchor("HORDER: the goCallable fields initialised from Extension.EvalContextHandler / UndefinedHandler were not found (%d)", len(role))
+		return 0
+	}
+	type hcall struct {
+		ci   ssa.CallInstruction
+		role string
+	}
+	calls := map[*ssa.Function][]hcall{}
+	for _, f := range c.G.Funcs {
+		if f.Pkg != pkg {
+			continue
+		}
+		for _, ci := range callsIn(f) {
+			ld, ok := ci.Common().Value.(*ssa.UnOp)
+			if !ok || ld.Op != token.MUL {
+				continue
+			}
+			fa, ok := ld.X.(*ssa.FieldAddr)
+			if !ok || !isGC(fa.X.Type()) || role[fa.Field] == "" {
+				continue
+			}
+			calls[f] = append(calls[f], hcall{ci, role[fa.Field]})
+		}
+	}
+	before := func(a, b ssa.Instruction) bool { // a is executed before b whenever both are, and never after
+		if a.Block() == b.Block() {
+			for _, ins := range a.Block().Instrs {
+				if ins == a {
+					return true
+				}
+				if ins == b {
+					return false
+				}
+			}
+		}
+		return reaches(a.Block(), b.Block()) && !reaches(b.Block(), a.Block())
+	}
+	n := 0
+	for f, hs := range calls {
+		var ctx, und []ssa.CallInstruction
+		for _, h := range hs {
+			if h.role == "context" {
+				ctx = append(ctx, h.ci)
+			} else {
+				und = append(und, h.ci)
+			}
+		}
+		if len(ctx) == 0 || len(und) == 0 {
+			continue
+		}
+		n++
+		o := Obligation{Rule: rule, Key: shortFn(f) + ":context-before-undefined", Fn: shortFn(f), Pos: c.W.Pos(und[0].Pos()), Nontrivial: true}
+		ok := true
+		for _, u := range und {
+			for _, x := range ctx {
+				if !before(x, u) {
+					ok = false
+				}
+			}
+		}
+		if ok {
+			o.Verdict, o.Reason = Discharged, "the EvalContextHandler hook is consulted (and the context item prepended) before the UndefinedHandler hook is given the argument list"
+		} else {
+			o.Verdict, o.Reason = Finding, "the UndefinedHandler hook can be consulted before the EvalContextHandler hook has prepended the context item: it sees an argument list the function will not receive"
+		}
+		r.Add(o)
+	}
+	if n == 0 {
+		// the two hooks are consulted in different functions: judge the order of those calls in a common caller
+		var fc, fu *ssa.Function
+		for f, hs := range calls {
+			for _, h := range hs {
+				if h.role == "context" {
+					fc = f
+				} else {
+					fu = f
+				}
+			}
+		}
+		if fc != nil && fu != nil {
+			for _, f := range c.G.Funcs {
+				if f.Pkg != pkg {
+					continue
+				}
+				var cc, cu []ssa.CallInstruction
+				for _, ci := range callsIn(f) {
+					switch ci.Common().StaticCallee() {
+					case fc:
+						cc = append(cc, ci)
+					case fu:
+						cu = append(cu, ci)
+					}
+				}
+				if len(cc) == 0 || len(cu) == 0 {
+					continue
+				}
+				n++
+				o := Obligation{Rule: rule, Key: shortFn(f) + ":context-before-undefined", Fn: shortFn(f), Pos: c.W.Pos(cu[0].Pos()), Nontrivial: true}
+				ok := true
+				for _, u := range cu {
+					for _, x := range cc {
+						if !before(x, u) {
+							ok = false
+						}
+					}
+				}
+				if ok {
+					o.Verdict, o.Reason = Discharged, "the function consulting EvalContextHandler is called before the one consulting UndefinedHandler"
+				} else {
+					o.Verdict, o.Reason = Finding, "the UndefinedHandler hook can be consulted before the EvalContextHandler hook has prepended the context item"
+				}
+				r.Add(o)
+			}
+		}
+	}
+	return n
+}
+
+func runCALLSEQ(c *Ctx, r *Result, rule string) int {
+	call := c.mustFn(r, "jsonata.(*goCallable).Call")
+	vc := c.mustFn(r, "jsonata.(*goCallable).validateArgCount")
+	vt := c.mustFn(r, "jsonata.(*goCallable).validateArgTypes")
+	if call == nil || vc == nil || vt == nil {
+		return 0
+	}
+	firstResultOf := func(v ssa.Value, callee *ssa.Function) *ssa.Call {
+		ex, ok := v.(*ssa.Extract)
+		if !ok || ex.Index != 0 {
+			return nil
+		}
+		cl, ok := ex.Tuple.(*ssa.Call)
+		if !ok || cl.Call.StaticCallee() != callee {
+			return nil
+		}
+		return cl
+	}
+	n := 0
+	for _, ins := range instrsIn(call) {
+		cl, ok := ins.(*ssa.Call)
+		if !ok || staticName(cl) != "reflect.Value.Call" {
+			continue
+		}
+		n++
+		o := Obligation{Rule: rule, Key: fmt.Sprintf("(*goCallable).Call:invoke#%d", n), Fn: shortFn(call), Pos: c.W.Pos(cl.Pos()), Nontrivial: true}
+		args := cl.Call.Args[1]
+		t := firstResultOf(args, vt)
+		switch {
+		case t == nil:
+			o.Verdict, o.Reason = Finding, "the Go function is invoked with an argument list that is not the result of validateArgTypes: unconverted or unchecked arguments reach it"
+		case !errNilDominates(t, cl.Block()):
+			o.Verdict, o.Reason = Finding, "the Go function is invoked although validateArgTypes' error was not tested nil"
+		default:
+			cnt := firstResultOf(t.Call.Args[1], vc)
+			switch {
+			case cnt == nil:
+				o.Verdict, o.Reason = Finding, "validateArgTypes is given an argument list that did not go through validateArgCount (handlers, optional padding and the count check are skipped)"
+			case !errNilDominates(cnt, t.Block()):
+				o.Verdict, o.Reason = Finding, "validateArgTypes runs although validateArgCount's error was not tested nil"
+			default:
+				o.Verdict, o.Reason = Discharged, "fn.Call(argv) with argv = validateArgTypes(validateArgCount(argv)), each error tested nil on the way"
+			}
+		}
+		r.Add(o)
+	}
+	return n
+}
+
+// ---------------------------------------------------------------------------------------
+// VALIDALL (C18): every sub-picture of a picture string is validated, whichever one is used.
+//
+// `$formatNumber` must reject a picture outside the decimal-format grammar. A picture has one or
+// two sub-pictures and only one of them renders a given number; a version that parses just the
+// sub-picture it is going to use accepts `0.00;(0..00)` for every positive number. Rule: in the
+// function that splits the picture and hands the pieces to the validating function (the one that
+// reaches validateSubpictureParts), every success return is reached only over paths on which each
+// piece was either handed to the validator or tested to be empty (forward must-analysis).
+// ---------------------------------------------------------------------------------------
+
+func runVALIDALL(c *Ctx, r *Result, rule string) int {
+	val := c.mustFn(r, "jxpath.validateSubpictureParts")
+	if val == nil {
+		return 0
+	}
+	// validators: functions whose every success return is behind a call of val
+	isValidator := map[*ssa.Function]bool{val: true}
+	for round := 0; round < 3; round++ {
+		for _, f := range c.G.Funcs {
+			if f.Pkg == nil || f.Pkg != val.Pkg || isValidator[f] || len(f.Blocks) == 0 {
+				continue
+			}
+			calls := false
+			for _, ci := range callsIn(f) {
+				if isValidator[ci.Common().StaticCallee()] {
+					calls = true
+				}
+			}
+			if calls && allPathsCall(f, isValidator, 0) && len(f.Params) >= 1 && isStringType(f.Params[0].Type()) {
+				isValidator[f] = true
+			}
+		}
+	}
+	n := 0
+	for _, f := range c.G.Funcs {
+		if f.Pkg == nil || f.Pkg != val.Pkg || isValidator[f] || len(f.Blocks) == 0 {
+			continue
+		}
+		// the pieces: string results of one multi-result call that are handed to a validator
+		pieces := map[ssa.Value]int{}
+		var split *ssa.Call
+		for _, ci := range callsIn(f) {
+			if !isValidator[ci.Common().StaticCallee()] || len(ci.Common().Args) == 0 {
+				continue
+			}
+			if ex, ok := ci.Common().Args[0].(*ssa.Extract); ok {
+				if sc, ok := ex.Tuple.(*ssa.Call); ok {
+					split = sc
+				}
+			}
+		}
+		if split == nil {
+			continue
+		}
+		for _, ref := range *split.Referrers() {
+			if ex, ok := ref.(*ssa.Extract); ok && isStringType(ex.Type()) {
+				pieces[ex] = ex.Index
+			}
+		}
+		if len(pieces) < 2 {
+			continue
+		}
+		all := uint(0)
+		for _, i := range pieces {
+			all |= 1 << uint(i)
+		}
+		// forward must-analysis: bit i = piece i was validated or is empty
+		in := map[*ssa.BasicBlock]uint{}
+		seen := map[*ssa.BasicBlock]bool{}
+		gen := func(b *ssa.BasicBlock) uint {
+			var g uint
+			for _, ins := range b.Instrs {
+				if ci, ok := ins.(ssa.CallInstruction); ok && isValidator[ci.Common().StaticCallee()] && len(ci.Common().Args) > 0 {
+					if i, ok := pieces[ci.Common().Args[0]]; ok {
+						g |= 1 << uint(i)
+					}
+				}
+			}
+			return g
+		}
+		edge := func(from, to *ssa.BasicBlock) uint {
+			iff, ok := from.Instrs[len(from.Instrs)-1].(*ssa.If)
+			if !ok || from.Succs[0] == from.Succs[1] {
+				return 0
+			}
+			bo, ok := iff.Cond.(*ssa.BinOp)
+			if !ok || (bo.Op != token.EQL && bo.Op != token.NEQ) {
+				return 0
+			}
+			for _, pr := range [][2]ssa.Value{{bo.X, bo.Y}, {bo.Y, bo.X}} {
+				i, isPiece := pieces[pr[0]]
+				k, isK := pr[1].(*ssa.Const)
+				if !isPiece || !isK || k.Value == nil || k.Value.ExactString() != `""` {
+					continue
+				}
+				emptyOnTrue := bo.Op == token.EQL
+				if (to == from.Succs[0]) == emptyOnTrue {
+					return 1 << uint(i)
+				}
+			}
+			return 0
+		}
+		work := []*ssa.BasicBlock{f.Blocks[0]}
+		in[f.Blocks[0]] = 0
+		seen[f.Blocks[0]] = true
+		for len(work) > 0 {
+			b := work[0]
+			work = work[1:]
+			out := in[b] | gen(b)
+			for _, s := range b.Succs {
+				v := out | edge(b, s)
+				if !seen[s] {
+					seen[s] = true
+					in[s] = v
+					work = append(work, s)
+				} else if in[s]&v != in[s] {
+					in[s] &= v
+					work = append(work, s)
+				}
+			}
+		}
+		rets := 0
+		for _, b := range f.Blocks {
+			ret, ok := b.Instrs[len(b.Instrs)-1].(*ssa.Return)
+			if !ok || !seen[b] || !isSuccessReturn(ret) {
+				continue
+			}
+			rets++
+			n++
+			o := Obligation{Rule: rule, Key: fmt.Sprintf("%s:success-return#%d", shortFn(f), rets), Fn: shortFn(f), Pos: c.W.Pos(ret.Pos()), Nontrivial: true}
+			if got := in[b] | gen(b); got&all == all {
+				o.Verdict, o.Reason = Discharged, fmt.Sprintf("every path to this return validated each of the %d sub-pictures or found it empty", len(pieces))
+			} else {
+				o.Verdict, o.Reason = Finding, "a picture can be accepted on a path on which one of its sub-pictures was neither validated nor empty: an invalid sub-picture goes unnoticed whenever the number's sign selects the other one"
+			}
+			r.Add(o)
+		}
+	}
+	return n
 }
